@@ -446,8 +446,10 @@ var guards = []guard{
 		params: []param{I("totalShards", "total")}, result: "Bool",
 		doc: "shardFilter: sharding only with more than one shard"},
 	{name: "shardOutExpr", file: "eventfilter.go", fn: "shardFilter", kind: "return", mentions: []string{"e.ID"}, index: 0,
-		params: []param{I("e.ID", "id"), I("totalShards", "total"), I("shard", "shard")}, result: "Bool",
+		params: []param{I("e.ID", "id"), I("total", "total"), I("shard", "shard")}, result: "Bool",
 		doc: "shardFilter: true = filtered out"},
+	{name: "shardTotal", file: "eventfilter.go", fn: "shardFilter", kind: "assign", target: "total", mentions: []string{"totalShards"}, index: 0,
+		params: []param{I("totalShards", "totalShards")}, result: "Int", doc: "shardFilter: the divisor"},
 	// ---- workflow.go Run launch loops (steps: index 0 ; connectors: index 1)
 	{name: "runStepSingle", file: "workflow.go", fn: "Workflow.Run", kind: "if", mentions: []string{"parallelCount <"}, index: 0,
 		params: []param{I("parallelCount", "p")}, result: "Bool", doc: "Run: step launched un-sharded"},
